@@ -65,6 +65,8 @@ PROPS = {
     "C09": dict(scans=lambda p, s, t: [scan.scan_immutables(p, s, t)]),
     "C10": dict(scans=_scans_state_writers),
     "C11": dict(scans=lambda p, s, t: [scan.scan_immutables(p, s, t)]),
+    "C13": dict(level="other", extra=lambda prog, S, tier, seed: [__import__("extras").run_child("trace_float_grid", REPO, 20000 if tier == "quick" else 100000),
+                                                    __import__("extras").run_child("trace_replay_random", REPO, seed, 300 if tier == "quick" else 3000)]),
     "C16": dict(scans=_scan_suspend),
     "C17": dict(scans=_scan_suspend),
     "C18": dict(scans=_scan_suspend, native_budget=25),
@@ -120,7 +122,17 @@ def run(pid: str, tier: str, replay: str | None, t0: float) -> int:
     failing_support = [(q, r) for q, r in support if r["status"] != "discharged"]
     bad_scans = [s for s in scans if not s.ok]
     bad_lemmas = [(n, r) for n, r in lemma_res if r != "unsat"]
-    bad_extra = [e for e in extra_res if not e["ok"]]
+    bad_extra = []
+    known_extra = []
+    for e in extra_res:
+        if e["ok"]:
+            continue
+        ks = [k for k in known["known"] if k["property"] == pid and (k["obligation"] == e["name"] or e["name"] in k.get("also_obligations", []))]
+        kinds = set(e.get("finding_kinds") or [])
+        if ks and kinds and kinds <= set(ks[0].get("kinds", [])):
+            known_extra.append((e, ks[0]))     # exactly the recorded finding, nothing else
+        else:
+            bad_extra.append(e)
     unreachable = [(q, rec["error"]) for q, rec in recs.items() if rec.get("error")]
     violations, knowns = [], []
     for q, r in failing:
@@ -151,7 +163,7 @@ def run(pid: str, tier: str, replay: str | None, t0: float) -> int:
             if c is not None and c.trusted:
                 assumptions.add(f"derived/assumed contract used at call sites: {cq} - {c.note}")
     ev = {
-        "property_id": pid, "tier": tier, "seed": seed, "level": "proof",
+        "property_id": pid, "tier": tier, "seed": seed, "level": spec_tbl.get("level", "proof"),
         "coverage": {
             "obligations": n_obl, "discharged": n_dis,
             "checker_cmd": f"./check {pid} --tier {tier}",
@@ -178,6 +190,8 @@ def run(pid: str, tier: str, replay: str | None, t0: float) -> int:
     print(f"{pid} [{tier}] functions={len(fns)} obligations={n_obl} discharged={n_dis} support={len(support)} wall={wall:.1f}s")
     for q, r, k in knowns:
         print(f"KNOWN-FINDING: property={pid} {k['what']} (obligation {r['name']})")
+    for e, k in known_extra:
+        print(f"KNOWN-FINDING: property={pid} {k['what'][:300]} (obligation {e['name']}, kinds {e.get('finding_kinds')})")
     for q, r in failing_support:
         print(f"NOTE: supporting obligation of another property not discharged: {r['name']} [{r['status']}] tags={r['tags']}")
     rc = 0
